@@ -35,6 +35,14 @@ Theorem C04_incremental_equals_whole : forall segs s b blk out,
 Proof. exact rx_run_stream. Qed.
 Print Assumptions C04_incremental_equals_whole.
 
+(* a frame that is not an HSMS message (too short for a header, an undefined SType) is dropped; the complete frames behind it are
+   delivered all the same, without waiting for more data (D68) *)
+Theorem C04_bad_frame_does_not_stall : forall bad ms e,
+  (4 <= length bad)%nat -> (be_val (firstn 4 bad) 0 + 4 = N.of_nat (length bad))%N -> hframe_decode bad = Err e -> Forall frame_ok ms ->
+  drainF (bad ++ List.concat (map enc_frame ms)) = ([], false, Dropped :: map (fun m => Delivered (fst m) (snd m)) ms, false).
+Proof. exact bad_frame_does_not_stall. Qed.
+Print Assumptions C04_bad_frame_does_not_stall.
+
 Theorem C04_constants :
   hsms_header_format_enc = [SC_H; SC_B; SC_B; SC_B; SC_B; SC_L] /\ hsms_header_format_dec = [SC_H; SC_B; SC_B; SC_B; SC_B; SC_L] /\
   hsms_length_format = [SC_L] /\ hsms_checksum_format = [] /\ hsms_block_size = (-1)%Z /\ hsms_header_length = 10%nat /\
